@@ -16,7 +16,7 @@ RULE = ('states = quaternions of the alphabet (group elements, lattice non-unit 
 ASSUMPTIONS = ['integer lattice (entries in [-2,2]) non-unit quaternions make the non-unit laws exact in floating point',
                'tolerance 1e-12 absolute on unit operands, 1e-12 relative to the product of norms on non-unit operands',
                'scalar-last vs scalar-first objects are built from the same four numbers in the two orders; normalisation sums in a different order, hence 1e-15 on components and 1e-14 on derived matrices and products rather than bit equality (observed 1.1e-15 on menu entry 2)', 'scalar-last objects are multiplied with Hamilton-ordered right operands, as Quaternion.product documents']
-REQUIRED_CLASSES = ['triples', 'pairs:nonunit', 'inverse:unit', 'inverse:nonunit', 'order:S', 'object-history', 'ownership']
+REQUIRED_CLASSES = ['triples', 'pairs:nonunit', 'inverse:unit', 'inverse:nonunit', 'order:S', 'object-history', 'ownership', 'derived-objects', 'small-batches']
 TOL = 1e-12
 
 
@@ -292,6 +292,63 @@ def job_object_histories(ctx, k, depth):
     ctx.sample({'object_history': 'conj>norm>inv', 'start': [1.0, 2.0, -2.0, 4.0], 'ops': OPS})
 
 
+def job_derived(ctx, k):
+    """Quaternion objects that NumPy derives from another one (-q, 2*q, q/3, np.negative(q), q.copy(), q[:], q.view()) are quaternions in their
+    own right: accessors, conjugate, norm, matrix and products (as left AND right operand, through product, * and @) follow THEIR elements.
+    Also: the free functions on (N,4) batches of every small N agree with the single-quaternion calls."""
+    Quaternion, O = _lib()
+    vals = [np.array([1.0, 2.0, -2.0, 4.0]), np.array([0.0, 3.0, 0.0, 4.0]), A.MENU[k] * 1.5, A.MENU[(k + 3) % 8].copy()]
+    others = [np.array([0.5, -1.0, 2.0, 0.25]), A.MENU[(k + 5) % 8].copy()]
+    derive = [('-q', lambda Q: -Q, lambda v: -v), ('2*q', lambda Q: 2.0 * Q, lambda v: 2.0 * v), ('q/3', lambda Q: Q / 3.0, lambda v: v / 3.0),
+              ('np.negative(q)', lambda Q: np.negative(Q), lambda v: -v), ('q.copy()', lambda Q: Q.copy(), lambda v: v.copy()), ('q[:]', lambda Q: Q[:], lambda v: v.copy()),
+              ('q.view()', lambda Q: Q.view(), lambda v: v.copy()), ('(q*1.5)/0.5', lambda Q: (1.5 * Q) / 0.5, lambda v: 3.0 * v), ('q+0', lambda Q: np.add(Q, 0.0), lambda v: v.copy())]
+    for vi, v in enumerate(vals):
+        for order in ('H', 'S'):
+            Q = Quaternion((v if order == 'H' else np.roll(v, -1)).copy(), versor=False, order=order)
+            for dn, mk, ref_fn in derive:
+                key = f'q#{vi} order={order} derived={dn}'
+                try:
+                    R = mk(Q)
+                except Exception as ex:
+                    ctx.outcome(('derive-refused', dn)); continue
+                if not isinstance(R, Quaternion):
+                    ctx.outcome(('derive-plain', dn)); continue
+                rv = ref_fn(v)                                    # Hamilton-ordered reference elements of the derived quaternion
+                ctx.evals += 1
+                try:
+                    ctx.close([R.w, R.x, R.y, R.z], rv, TOL, 'derived object: w, x, y, z are its own elements', key)
+                    cj = np.asarray(R.conjugate, float)
+                    ctx.close(cj if order == 'H' else np.roll(cj, 1), rq.qconj(rv), TOL, 'derived object: conjugate of its own elements', key)
+                    for oi, o in enumerate(others):
+                        exp_l = rq.qmul(rv, o); exp_r = rq.qmul(o, rv)
+                        P = Quaternion(o.copy(), versor=False)
+                        for rn, fn in (('product', lambda: R.product(o.copy())), ('*', lambda: R * P), ('@', lambda: R @ P)):
+                            ctx.close(np.asarray(fn(), float), exp_l, TOL * 10, f'derived object as LEFT operand ({rn}) = product of its own elements', f'{key} other#{oi}')
+                        if order == 'H':
+                            for rn, fn in (('product', lambda: P.product(R)), ('*', lambda: P * R), ('@', lambda: P @ R), ('q_prod', lambda: O.q_prod(o.copy(), R))):
+                                ctx.close(np.asarray(fn(), float), exp_r, TOL * 10, f'derived object as RIGHT operand ({rn}) = product of its own elements', f'{key} other#{oi}')
+                    if abs(rq.qnorm(rv) - 1) < 1e-12:
+                        ctx.close(np.asarray(R.to_DCM(), float), rq.R(rv), TOL, 'derived object: to_DCM of its own elements', key)
+                except Exception as ex:
+                    ctx.fail('derived object: operation raises', key, repr(ex)[:160], 'completes')
+                ctx.cls('derived-objects'); ctx.seen(('derived', vi, order, dn))
+    # free functions on (N,4) batches of every small N
+    rows = np.array([A.MENU[(k + j) % 8] * (1.0 + 0.5 * j) for j in range(6)])
+    for nb in (1, 2, 3, 4, 5, 6):
+        for off in (0, 1):
+            if off + nb > len(rows):
+                continue
+            B = rows[off:off + nb]
+            key = f'N={nb} offset={off}'
+            try:
+                cb = np.asarray(O.q_conj(B.copy()), float)
+                ctx.expect(cb.shape == (nb, 4) and np.allclose(cb, B * np.array([1.0, -1, -1, -1]), rtol=0, atol=1e-15), 'q_conj(N rows) = rows conjugated one by one', key, cb, B * np.array([1.0, -1, -1, -1]))
+            except Exception as ex:
+                ctx.fail('q_conj(N rows) raises', key, repr(ex)[:160], 'N rows')
+            ctx.cls('small-batches')
+    ctx.sample({'derived': [d[0] for d in derive]})
+
+
 def job_ownership(ctx, k):
     """Objects own their components: building an object never changes the caller's array, later changes of that array never reach the object,
     and a second object built from the same array (whatever its options) leaves the first one as it was."""
@@ -358,6 +415,7 @@ def run(ctx):
         jobs.append(('job_inverse', (k,)))
         jobs.append(('job_order', (k,)))
         jobs.append(('job_ownership', (k,)))
+        jobs.append(('job_derived', (k,)))
         jobs.append(('job_object_histories', (k, 4 if ctx.thorough else 3)))
     core.run_jobs(ctx, __name__, jobs)
     ctx.notes['menu_entries'] = ks
